@@ -13,3 +13,32 @@ package graphql_datasource
 //@   at call Digest.Write: ghost g_n = g_n + 1
 //@   ensures {trigger.identity.covers.the.whole.upstream.input} result == nil ==> g_whole && g_n == 1
 //@   modifies *
+
+// C15: compactAndUnNullVariables returns a request input on every path: the input it was given, or that input with
+// body.variables replaced (jsonparser.Set) - never a fragment of it.
+//@ func Source.compactAndUnNullVariables
+//@   ghost var g_set bool = false
+//@   ghost var g_setArr int = 0
+//@   ghost var g_setOff int = 0
+//@   ghost var g_setLen int = 0
+//@   at call jsonparser.Set: assert {variables.are.written.back.into.this.input} arg0 == input
+//@   at call jsonparser.Set: ghost g_set = true
+//@   at call jsonparser.Set: ghost g_setArr = arr(result0)
+//@   at call jsonparser.Set: ghost g_setOff = off(result0)
+//@   at call jsonparser.Set: ghost g_setLen = len(result0)
+//@   ensures {every.path.returns.a.request.input} result == input || (g_set && arr(result) == g_setArr && off(result) == g_setOff && len(result) == g_setLen)
+//@   modifies *
+//@   safety none
+
+// an explicit null stays null: a key is deleted from body.variables only if its value is null AND the key is
+// listed among the variables the client left undefined
+//@ func Source.cleanupVariables$1
+//@   ghost var g_listed bool = false
+//@   at call slices.Contains: ghost g_listed = result
+//@   at call jsonparser.Delete: assert {only.null.values.of.variables.the.client.left.undefined.are.removed} dataType == jsonparser.Null && g_listed
+//@   modifies *
+//@   safety none
+//@ func Source.cleanupVariables
+//@   ensures {nothing.is.removed.when.no.variable.was.undefined} len(undefinedVariables) == 0 ==> result == variables
+//@   modifies *
+//@   safety none
